@@ -18,7 +18,7 @@ from sqlcase import RL, DISK_LAYOUTS, ms, ordered_equal, norm_rows
 
 TYPES = ("INT", "BIGINT", "BOOLEAN", "VARCHAR", "DOUBLE", "DECIMAL(10,2)", "DATE")
 FEATURES = dict(full_join=False, not_in_sub=False, like=True, bool_col_cond=False, offset_no_limit=True,
-                case_no_else=True, corr_in_sub=False, null_lit=True, cross=True, derived_limit=True)
+                case_no_else=True, corr_in_sub=False, null_lit=True, cross=True, derived_limit=True, avg=True)
 # Leg B runs the unoptimized bound plan, which cannot contain subqueries
 FEATURES_B = dict(FEATURES, in_sub=False, exists=False, not_exists=False, scalar_sub=False, cte=False)
 
